@@ -446,6 +446,24 @@ func N(quick, thorough int) int {
 	return n
 }
 
+var breadcrumbs = os.Getenv("VERIF_BREADCRUMB") != ""
+
+// breadcrumb records the case about to be judged, so that the driver can name
+// it when the code under test takes the whole process down (a Go fatal error
+// such as a stack overflow or concurrent map writes cannot be recovered).
+func breadcrumb(check string, c any) {
+	if !breadcrumbs || cfg.OutDir == "" {
+		return
+	}
+	raw, err := json.Marshal(c)
+	if err != nil {
+		return
+	}
+	rf := ReplayFile{Property: cfg.Property, Check: check, Sig: "process-aborted", Msg: "the process died while this case was being handled", Case: raw}
+	data, _ := json.Marshal(rf)
+	_ = os.WriteFile(filepath.Join(cfg.OutDir, fmt.Sprintf("breadcrumb-%d.json", cfg.Shard)), data, 0o644)
+}
+
 // safeOracle runs the oracle turning a panic into a failure whose signature
 // names the top frame inside the repository.
 func safeOracle(fn func(), o *Obs) {
@@ -529,6 +547,7 @@ func Rapid[C any](name string, quick, thorough int, gen func(t *rapid.T) C, orac
 				rapid.Check(t, func(rt *rapid.T) {
 					c := gen(rt)
 					o := &Obs{}
+					breadcrumb(name, c)
 					safeOracle(func() { oracle(c, o) }, o)
 					var raw []byte
 					getRaw := func() []byte {
@@ -593,6 +612,7 @@ func Enum[C any](name string, iter func(yield func(C) bool), oracle func(c C, o 
 				return false
 			}
 			o := &Obs{}
+			breadcrumb(name, c)
 			safeOracle(func() { oracle(c, o) }, o)
 			getRaw := func() []byte {
 				raw, err := json.Marshal(c)
